@@ -128,6 +128,7 @@ static enum websocket_callback_return private_decompress(struct websocket *s, ui
 	uint8_t *in = malloc(length + 4);
 	if (in == NULL) {
 		log_err("inflate in error: malloc");
+		strm->avail_in = 0;
 		return WS_ERROR;
 	}
 	if (length > 0) {
@@ -148,6 +149,7 @@ static enum websocket_callback_return private_decompress(struct websocket *s, ui
 	if (*free_ptr == NULL) {
 		log_err("inflate out error: malloc");
 		free(in);
+		strm->avail_in = 0;
 		return WS_ERROR;
 	}
 	uint8_t *out = *free_ptr;
@@ -162,6 +164,7 @@ static enum websocket_callback_return private_decompress(struct websocket *s, ui
 				free(*free_ptr);
 				*free_ptr = NULL;
 				free(in);
+				strm->avail_in = 0;
 				return WS_ERROR;
 			}
 			*free_ptr = grown;
@@ -404,6 +407,13 @@ void alloc_compression(struct websocket *ws)
 void free_compression(struct websocket *ws)
 {
 	if (ws->extension_compression.compression_level == 0) return;
+	z_stream *infl = &ws->extension_compression.strm_decomp;
+	if (infl->avail_in != 0) {
+		/* The connection ends in the middle of a fragmented message: release the reassembly buffer. */
+		free(infl->next_in);
+		infl->next_in = Z_NULL;
+		infl->avail_in = 0;
+	}
 	deflateEnd(*ws->extension_compression.strm_comp);
 	inflateEnd(&ws->extension_compression.strm_decomp);
 }
